@@ -51,6 +51,8 @@ const UNOBS: u64 = 99; // component not exercised by the operation
 thread_local! {
     /// what a tagged emitter answered to blocking_flush in the current operation (0 = not asked)
     static FLUSH_ANSWER: std::cell::Cell<u64> = const { std::cell::Cell::new(0) };
+    /// how often a tagged emitter was asked to flush in the current operation
+    static FLUSH_COUNT: std::cell::Cell<u64> = const { std::cell::Cell::new(0) };
 }
 thread_local! {
     /// tags that answered, per component, during the current operation of this thread
@@ -87,6 +89,7 @@ impl Emitter for TEmitter {
         // timeout altered on the way shows
         let answer = (self.0.tag as u128 + timeout.as_nanos()) % 2 == 0;
         FLUSH_ANSWER.with(|a| a.set(if answer { 2 } else { 1 }));
+        FLUSH_COUNT.with(|a| a.set(a.get() + 1));
         answer
     }
 }
@@ -139,6 +142,7 @@ impl Rng for TRng {
 
 fn clear_seen() {
     FLUSH_ANSWER.with(|a| a.set(0));
+    FLUSH_COUNT.with(|a| a.set(0));
     SEEN.with(|s| s.borrow_mut().iter_mut().for_each(|v| v.clear()));
 }
 
@@ -168,6 +172,9 @@ struct InitPlan {
     kind: &'static str, // "try_init_slot" | "init" | "init_slot"
     skew: u64,
     yield_first: bool,
+    /// what a successful Setup-form initialiser does with its Init handle: (operation,
+    /// timeout); h_guard_drop consumes the handle and is last
+    hops: Vec<(&'static str, usize)>,
 }
 #[derive(Clone)]
 struct ObsPlan {
@@ -242,6 +249,10 @@ enum Ev {
     /// observer, tags, en, fl (value flush returned), pan, fa (0 = no tagged emitter was
     /// asked to flush, 1 = it answered false, 2 = it answered true)
     ObsRet(usize, [u64; 5], bool, bool, bool, u64),
+    /// initialiser, handle operation, timeout label
+    HCall(usize, &'static str, &'static str),
+    /// initialiser, tags, fl, fa, nfl (times the tagged emitter was asked to flush), pan
+    HRet(usize, [u64; 5], bool, u64, u64, bool),
     Hang(usize, String),
 }
 impl Ev {
@@ -252,6 +263,11 @@ impl Ev {
             Ev::ObsCall(o, op, via, tmo) => format!(r#"{{"e":"ObsCall","o":{o},"op":"{op}","via":"{via}","tmo":"{tmo}"}}"#),
             Ev::ObsRet(o, t, en, fl, pan, fa) => format!(
                 r#"{{"e":"ObsRet","o":{o},"tags":[{},{},{},{},{}],"en":{en},"fl":{fl},"pan":{pan},"fa":{fa}}}"#,
+                t[0], t[1], t[2], t[3], t[4]
+            ),
+            Ev::HCall(i, op, tmo) => format!(r#"{{"e":"HCall","i":{i},"op":"{op}","tmo":"{tmo}"}}"#),
+            Ev::HRet(i, t, fl, fa, nfl, pan) => format!(
+                r#"{{"e":"HRet","i":{i},"tags":[{},{},{},{},{}],"fl":{fl},"fa":{fa},"nfl":{nfl},"pan":{pan}}}"#,
                 t[0], t[1], t[2], t[3], t[4]
             ),
             Ev::Hang(t, what) => format!(r#"{{"e":"Hang","t":{t},"in":"{what}"}}"#),
@@ -277,6 +293,71 @@ impl ThreadLog {
     fn call_end(&self, ev: Ev) {
         self.in_call.store(0, SeqCst);
         self.push((seq(), ev));
+    }
+}
+
+/// The five components of a runtime, each by the value it answers with.
+fn probe(rt: &emit::runtime::AmbientRuntime) -> [u64; 5] {
+    let mut tags = [UNOBS; 5];
+    let evt = emit::Event::new(Path::new_raw("vh_slot"), Template::literal("probe"), Empty, Empty);
+    rt.emitter().emit(&evt);
+    tags[0] = seen(0);
+    // the filter by its verdict (a tagged filter rejects the marker module, the
+    // empty one accepts everything) and by the tag that answered
+    let rej = emit::Event::new(Path::new_raw(REJECT_MDL), Template::literal("probe"), Empty, Empty);
+    let accepted = rt.filter().matches(&evt);
+    let rejected = !rt.filter().matches(&rej);
+    tags[1] = match (seen(1), accepted, rejected) {
+        (0, true, false) => 0,
+        (t, true, true) if t != 0 => t,
+        _ => MIXED,
+    };
+    tags[2] = rt
+        .ctxt()
+        .with_current(|p| p.get("ctxt_tag").and_then(|v| v.to_string().parse::<u64>().ok()))
+        .unwrap_or(0);
+    tags[3] = rt.clock().now().map(|t| t.to_unix().as_secs()).unwrap_or(0);
+    tags[4] = rt.rng().gen_u64().unwrap_or(0);
+    tags
+}
+
+/// The post-initialisation phase of a successful Setup-form initialiser: operations through
+/// the `Init` handle it was given (Init::get, Init::blocking_flush, Init::flush_on_drop +
+/// InitGuard::inner + dropping the guard).
+fn handle_ops<E: Emitter + ?Sized, C: Ctxt + ?Sized>(
+    init: emit::setup::Init<'_, E, C>,
+    i: usize,
+    hops: &[(&'static str, usize)],
+    log: &ThreadLog,
+) {
+    let mut init = Some(init);
+    for (op, tmo) in hops {
+        let (tmo_label, timeout) = FLUSH_TMO[*tmo % 5];
+        clear_seen();
+        let mut tags = [UNOBS; 5];
+        let mut fl = true;
+        log.call_start(Ev::HCall(i, op, if *op == "h_probe" { "" } else { tmo_label }));
+        let r = std::panic::catch_unwind(std::panic::AssertUnwindSafe(|| match *op {
+            "h_probe" => tags = probe(init.as_ref().unwrap().get()),
+            "h_flush" => {
+                fl = init.as_ref().unwrap().blocking_flush(timeout);
+                tags[0] = seen(0);
+            }
+            "h_guard_drop" => {
+                let guard = init.take().unwrap().flush_on_drop(timeout);
+                // the guard gives the handle back by reference; nothing is flushed yet
+                let _ = guard.inner().get();
+                drop(guard);
+                tags[0] = seen(0);
+            }
+            k => tool_error(&format!("unknown handle op {k}")),
+        }));
+        let fa = FLUSH_ANSWER.with(|a| a.get());
+        let nfl = FLUSH_COUNT.with(|a| a.get());
+        log.call_end(Ev::HRet(i, tags, fl, fa, nfl, r.is_err()));
+        if init.is_none() {
+            break;
+        }
     }
 }
 
@@ -315,30 +396,51 @@ fn run_init(plan: &RoundPlan, i: usize, p: &InitPlan, log: &ThreadLog) {
     // Every form runs under catch_unwind: a panic is a result like any other (the
     // specification says which form may panic, and when).
     // (result, the references handed back are to this initialiser's own components)
+    let returned = std::cell::Cell::new(false);
+    let ret = |r: &'static str, own: bool| {
+        returned.set(true);
+        log.call_end(Ev::InitRet(i, r, own));
+    };
+    // a Setup form: on success the Init handle is used further (post-initialisation phase)
+    fn te(e: &TEmitter) -> u64 {
+        e.0.tag
+    }
     let r = std::panic::catch_unwind(std::panic::AssertUnwindSafe(|| match p.kind {
         "try_init_slot" => match setup().try_init_slot(fresh()) {
-            Some(init) => ("some", init.emitter().0.tag == me && init.ctxt().0.tag == me),
-            None => ("nil", true),
+            Some(init) => {
+                ret("some", te(init.emitter()) == me && init.ctxt().0.tag == me);
+                handle_ops(init, i, &p.hops, log)
+            }
+            None => ret("nil", true),
         },
         "init_slot" => {
             let init = setup().init_slot(fresh());
-            ("ok", init.emitter().0.tag == me && init.ctxt().0.tag == me)
+            ret("ok", te(init.emitter()) == me && init.ctxt().0.tag == me);
+            handle_ops(init, i, &p.hops, log)
         }
         "try_init" => match setup().try_init() {
-            Some(init) => ("some", init.emitter().0.tag == me && init.ctxt().0.tag == me),
-            None => ("nil", true),
+            Some(init) => {
+                ret("some", te(init.emitter()) == me && init.ctxt().0.tag == me);
+                handle_ops(init, i, &p.hops, log)
+            }
+            None => ret("nil", true),
         },
         "init" => {
             let init = setup().init();
-            ("ok", init.emitter().0.tag == me && init.ctxt().0.tag == me)
+            ret("ok", te(init.emitter()) == me && init.ctxt().0.tag == me);
+            handle_ops(init, i, &p.hops, log)
         }
         "try_init_internal" => match setup_internal().try_init_internal() {
-            Some(init) => ("some", init.emitter().0 .0.tag == me && init.ctxt().0 .0.tag == me),
-            None => ("nil", true),
+            Some(init) => {
+                ret("some", init.emitter().0 .0.tag == me && init.ctxt().0 .0.tag == me);
+                handle_ops(init, i, &p.hops, log)
+            }
+            None => ret("nil", true),
         },
         "init_internal" => {
             let init = setup_internal().init_internal();
-            ("ok", init.emitter().0 .0.tag == me && init.ctxt().0 .0.tag == me)
+            ret("ok", init.emitter().0 .0.tag == me && init.ctxt().0 .0.tag == me);
+            handle_ops(init, i, &p.hops, log)
         }
         "slot_init" => {
             let rt = Runtime::build(
@@ -349,7 +451,7 @@ fn run_init(plan: &RoundPlan, i: usize, p: &InitPlan, log: &ThreadLog) {
                 TRng(tag.clone()),
             );
             match fresh().init(rt) {
-                Some(rt) => (
+                Some(rt) => ret(
                     "some",
                     rt.emitter().0.tag == me
                         && rt.filter().0.tag == me
@@ -357,7 +459,7 @@ fn run_init(plan: &RoundPlan, i: usize, p: &InitPlan, log: &ThreadLog) {
                         && rt.clock().0.tag == me
                         && rt.rng().0.tag == me,
                 ),
-                None => ("nil", true),
+                None => ret("nil", true),
             }
         }
         "internal_slot_init" => {
@@ -369,7 +471,7 @@ fn run_init(plan: &RoundPlan, i: usize, p: &InitPlan, log: &ThreadLog) {
                 AI(TRng(tag.clone())),
             );
             match emit::runtime::internal_slot().init(rt) {
-                Some(rt) => (
+                Some(rt) => ret(
                     "some",
                     rt.emitter().0 .0.tag == me
                         && rt.filter().0 .0.tag == me
@@ -377,13 +479,16 @@ fn run_init(plan: &RoundPlan, i: usize, p: &InitPlan, log: &ThreadLog) {
                         && rt.clock().0 .0.tag == me
                         && rt.rng().0 .0.tag == me,
                 ),
-                None => ("nil", true),
+                None => ret("nil", true),
             }
         }
         k => tool_error(&format!("unknown init kind {k}")),
     }));
-    let (r, own) = r.unwrap_or(("panic", true));
-    log.call_end(Ev::InitRet(i, r, own));
+    if r.is_err() && !returned.get() {
+        ret("panic", true);
+    } else if r.is_err() {
+        tool_error("panic after the initialiser returned, outside the caught handle operations");
+    }
 }
 
 const FLUSH_VIA: [&str; 3] = ["emitter", "runtime", "global"];
@@ -458,28 +563,7 @@ fn run_obs(plan: &RoundPlan, o: usize, p: &ObsPlan, log: &ThreadLog) {
                 };
                 tags[0] = seen(0);
             }
-            "probe" => {
-                let rt = slot.rt();
-                let evt = emit::Event::new(Path::new_raw("vh_slot"), Template::literal("probe"), Empty, Empty);
-                rt.emitter().emit(&evt);
-                tags[0] = seen(0);
-                // the filter by its verdict (a tagged filter rejects the marker module, the
-                // empty one accepts everything) and by the tag that answered
-                let rej = emit::Event::new(Path::new_raw(REJECT_MDL), Template::literal("probe"), Empty, Empty);
-                let accepted = rt.filter().matches(&evt);
-                let rejected = !rt.filter().matches(&rej);
-                tags[1] = match (seen(1), accepted, rejected) {
-                    (0, true, false) => 0,
-                    (t, true, true) if t != 0 => t,
-                    _ => MIXED,
-                };
-                tags[2] = rt
-                    .ctxt()
-                    .with_current(|p| p.get("ctxt_tag").and_then(|v| v.to_string().parse::<u64>().ok()))
-                    .unwrap_or(0);
-                tags[3] = rt.clock().now().map(|t| t.to_unix().as_secs()).unwrap_or(0);
-                tags[4] = rt.rng().gen_u64().unwrap_or(0);
-            }
+            "probe" => tags = probe(slot.rt()),
             k => tool_error(&format!("unknown observer op {k}")),
         }));
         let fa = FLUSH_ANSWER.with(|a| a.get());
@@ -515,7 +599,14 @@ fn plan_round(rng: &mut vh_common::Rng, slot: SlotRef, max_obs: u64, target: Tar
     for &i in order.iter().take(n_init) {
         let kinds = target.kinds();
         let kind = kinds[rng.below(kinds.len() as u64) as usize];
-        inits[i] = Some(InitPlan { kind, skew: skew(rng), yield_first: rng.below(8) == 0 });
+        let mut hops = Vec::new();
+        for _ in 0..rng.below(3) {
+            hops.push((["h_probe", "h_flush"][rng.below(2) as usize], rng.below(5) as usize));
+        }
+        if rng.below(2) == 0 {
+            hops.push(("h_guard_drop", rng.below(5) as usize));
+        }
+        inits[i] = Some(InitPlan { kind, skew: skew(rng), yield_first: rng.below(8) == 0, hops });
     }
     let mut obs = vec![None; 4];
     // half of the rounds with initialisers: observers wait until the first initialiser is
@@ -685,11 +776,11 @@ fn run_rounds(
             for t in 0..6usize {
                 let in_call = shared.logs[t].in_call.load(SeqCst) == 1;
                 let last = events.iter().rev().find(|(_, e)| match e {
-                    Ev::InitCall(i, _) | Ev::InitRet(i, _, _) => t < 3 && *i == t + 1,
+                    Ev::InitCall(i, _) | Ev::InitRet(i, _, _) | Ev::HCall(i, ..) | Ev::HRet(i, ..) => t < 3 && *i == t + 1,
                     Ev::ObsCall(o, ..) | Ev::ObsRet(o, ..) => t >= 3 && *o == t - 2,
                     Ev::Hang(..) => false,
                 });
-                let pending = matches!(last, Some((_, Ev::InitCall(..))) | Some((_, Ev::ObsCall(..))));
+                let pending = matches!(last, Some((_, Ev::InitCall(..))) | Some((_, Ev::ObsCall(..))) | Some((_, Ev::HCall(..))));
                 if in_call || pending {
                     threads.push((t, in_call, last.map(|(_, e)| e.json().replace('"', "'")).unwrap_or_default()));
                 }
